@@ -130,6 +130,7 @@ def run(ctx):
             out["variants"].append(("doc_then_comment", txt, diff_outputs(o1, o3)))
         # marking: only a comment block is prepended
         for mname, mtext in (("marking", "Copyright (c) someone\nAll rights reserved. // plain\n"),
+                             ("marking_slashes", "// SPDX-License-Identifier: BSD-3-Clause\nCopyright (c) someone\n  indented line\n\n# not a directive\n//\nlast line without newline"),
                              ("marking_comment_end", "Copyright (c) someone\nAll rights reserved. */ // tricky\n")):
           mk = os.path.join(d, "MARK_" + mname)
           open(mk, "w").write(mtext)
